@@ -134,6 +134,13 @@ def rip_parse(data):
   """bytes -> (wire, [(ip, bits, metric)]); wire = "ok" when every fixed field is what RIP v2 responses carry"""
   p = RIP.rip(raw=data)
   bad = []
+  if len(data) == 4:
+    # header only (package_responses' empty packet): pox's own parser refuses anything shorter than 24 octets,
+    # so the four octets are read here
+    import struct
+    p = RIP.rip()
+    p.command, p.version, z = struct.unpack("!BBH", data)
+    p.parsed = (z == 0)
   if not p.parsed:
     bad.append("unparsed")
   if p.version != 2:
